@@ -11,9 +11,9 @@ import (
 	"github.com/NVIDIA/KAI-scheduler/pkg/scheduler/api/pod_info"
 	"github.com/NVIDIA/KAI-scheduler/pkg/scheduler/api/pod_status"
 	"github.com/NVIDIA/KAI-scheduler/pkg/scheduler/api/podgroup_info"
-	"github.com/NVIDIA/KAI-scheduler/pkg/scheduler/framework"
 	"github.com/NVIDIA/KAI-scheduler/pkg/scheduler/api/podgroup_info/subgroup_info"
 	"github.com/NVIDIA/KAI-scheduler/pkg/scheduler/api/resource_info"
+	"github.com/NVIDIA/KAI-scheduler/pkg/scheduler/framework"
 	vr "github.com/NVIDIA/KAI-scheduler/pkg/zz_verifrt"
 )
 
@@ -77,7 +77,9 @@ var c03Ssn = func() *framework.Session {
 }()
 
 func c03SetOrder(l, r interface{}) bool { return c03Ssn.PodSetOrderFn(l, r) }
-func c03TaskOrder(l, r interface{}) bool { return l.(*pod_info.PodInfo).UID < r.(*pod_info.PodInfo).UID }
+func c03TaskOrder(l, r interface{}) bool {
+	return l.(*pod_info.PodInfo).UID < r.(*pod_info.PodInfo).UID
+}
 
 func (s *c03Set) count(pred func(pod_status.PodStatus) bool) int {
 	n := 0
